@@ -15,7 +15,7 @@ import PdfVerif.Model.SimpleFont
 import PdfVerif.Model.StackParser
 
 namespace PdfVerif.SimpleFont
-open PdfVerif PdfVerif.Lexer PdfVerif.StackParser
+open PdfVerif PdfVerif.Lexer PdfVerif.StackParser PdfVerif.Gen.FontCode
 
 /-- Strict UTF-8 decoding (what `str(name, "utf-8")` accepts: shortest forms only, no surrogates, at most
 U+10FFFF); `none` = `UnicodeDecodeError` (the literal then keeps its bytes and has no glyph name). -/
@@ -61,7 +61,8 @@ structure T1State where
   error : Option String := none               -- an exception other than PSEOF escaped from `nextobject`
 deriving Repr
 
-def kwPut : Bytes := [112, 117, 116]
+/-- the keyword `do_keyword` reacts to: regenerated from the source (`KEYWORD_PUT = KWD(b"put")`) -/
+def kwPut : Bytes := T1_PUT_KEYWORD
 
 def t1Push (st : T1State) (o : SObj) : T1State := { st with curstack := st.curstack ++ [o] }
 
@@ -81,9 +82,9 @@ whatever is there); with fewer than two operands nothing else happens; otherwise
 def t1Keyword (st : T1State) (name : Bytes) : T1State :=
   if name == kwPut then
     let n := st.curstack.length
-    if n < 2 then { st with curstack := [] } else
-    let st' := { st with curstack := st.curstack.take (n - 2) }
-    match st.curstack.drop (n - 2) with
+    if n < T1_PUT_ARITY then { st with curstack := [] } else
+    let st' := { st with curstack := st.curstack.take (n - T1_PUT_ARITY) }
+    match st.curstack.drop (n - T1_PUT_ARITY) with
     | [.int k, .lit nm] => { st' with results := st'.results ++ [(k, nm)] }
     | [.bool b, .lit nm] => { st' with results := st'.results ++ [((if b then 1 else 0), nm)] }
     | _ => st'
